@@ -60,7 +60,10 @@ type LIface struct {
 	BlockDoc   string    `json:"block_doc,omitempty"` // a /* ... */ doc comment instead of line comments (look-alike carrier)
 	// Embed: name of an unmarked interface of the same file that this interface embeds; EmbedMethods are that
 	// interface's methods. They belong to the method set of the converter interface: one function each.
-	Embed        string    `json:"embed,omitempty"`
+	// EmbedIsConverter: the embedded interface is itself a converter interface: its methods would have to be generated
+	// twice, which no Go file can hold - the run has to be refused (or every function emitted exactly once)
+	EmbedIsConverter bool      `json:"embed_is_converter,omitempty"`
+	Embed            string    `json:"embed,omitempty"`
 	EmbedMethods []LMethod `json:"embed_methods,omitempty"`
 }
 
@@ -483,6 +486,7 @@ var lDeclTemplates = []struct {
 	{"type FieldDir%[1]d struct {\n\t//go:generate echo the only comment line of a struct field\n\tA int\n\t// B keeps its doc.\n\t//go:generate echo below a doc line of a field\n\tB int\n}", []string{"FieldDir%d"}, "go-generate-on-struct-field"},
 	{"var (\n\t//go:generate echo the only comment line of a value spec\n\tSpecDir%[1]d = %[1]d\n)\n\ntype (\n\t//go:generate echo the only comment line of a type spec\n\tTypeDir%[1]d int\n)\n\nconst (\n\t//go:generate echo the only comment line of a const spec\n\tConstDir%[1]d = %[1]d\n)", []string{"SpecDir%d", "TypeDir%d", "ConstDir%d"}, "go-generate-on-grouped-spec"},
 	{"func BodyDir%[1]d() int {\n\t//go:generate echo inside a function body\n\treturn %[1]d\n}", []string{"BodyDir%d"}, "go-generate-in-function-body"},
+	{"// Prose%[1]d is documented by a sentence that mentions //go:generate and // +build convergen in passing.\n// Its second line stays as well.\nvar Prose%[1]d = %[1]d // a trailing comment about //go:generate", []string{"Prose%d"}, "directive-mentioned-in-prose"},
 	{"// Raw%[1]d is a raw string whose lines look like directives: they are data, not comments.\nconst Raw%[1]d = `first line of %[1]d\n//go:generate echo inside a raw string\n  //go:build convergen\n// +build convergen\n\t// :convergen\n// :skip A\nlast line`", []string{"Raw%d"}, "raw-string-with-directive-looking-lines"},
 	{"var RawTag%[1]d = struct {\n\tA int `json:\"a\"`\n}{}\n\nvar RawList%[1]d = []string{`\n//go:generate x\n`, \"//go:build convergen\"}", []string{"RawTag%d", "RawList%d"}, "raw-string-with-directive-looking-lines"},
 	{"//go:generate stringer -type=Gen%[1]d\n// Gen%[1]d has a go:generate line at the start of its doc comment.\ntype Gen%[1]d int", []string{"Gen%d"}, "go-generate-in-doc:first"},
@@ -557,7 +561,7 @@ func GenLayoutIface(t *rapid.T, pf LayoutProfile, idx int, methodSeq *int, force
 	if forceConverter {
 		kind = rapid.SampledFrom([]string{"named", "marked", "marked", "marked-spaced", "marked-with-doc"}).Draw(t, "convKind")
 	} else {
-		kind = rapid.SampledFrom([]string{"unmarked", "unmarked-doc", "convergence", "convergen2", "marker-in-block-comment", "marker-in-text", "notation-looking-lines"}).Draw(t, "plainKind")
+		kind = rapid.SampledFrom([]string{"unmarked", "unmarked-doc", "convergence", "convergen2", "marker-in-block-comment", "marker-in-text", "notation-looking-lines", "marker-with-suffix", "directive-mentioned-in-doc"}).Draw(t, "plainKind")
 	}
 	it.Name = fmt.Sprintf("Iface%d", idx)
 	switch kind {
@@ -586,6 +590,12 @@ func GenLayoutIface(t *rapid.T, pf LayoutProfile, idx int, methodSeq *int, force
 		it.Doc = append(it.Doc, LLine{Text: "mentions :convergen in the middle of a sentence", Notation: false})
 	case "notation-looking-lines":
 		it.Doc = append(it.Doc, LLine{Text: ":typecast", Notation: false})
+	case "marker-with-suffix":
+		// the marker is the word ":convergen", not every word that starts with it
+		it.Doc = append(it.Doc, LLine{Text: rapid.SampledFrom([]string{":convergen-like but not the marker", ":convergen.v2", ":convergen:off"}).Draw(t, "markerSuffix"), Notation: false})
+	case "directive-mentioned-in-doc":
+		// prose that mentions a directive is prose
+		it.Doc = append(it.Doc, LLine{Text: it.Name + " does what //go:generate would do, and mentions //go:build convergen too.", Notation: false}, LLine{Text: "Second line of the doc comment.", Notation: false})
 	}
 	if it.Converter {
 		it.GoGenerate = rapid.IntRange(0, 2).Draw(t, "gogen") == 0
@@ -644,6 +654,9 @@ func GenLayoutIface(t *rapid.T, pf LayoutProfile, idx int, methodSeq *int, force
 			m.Sig = rapid.SampledFrom([]string{"(x int) error", "() string", "(*LInner) *LInner2"}).Draw(t, "plainSig")
 			if rapid.IntRange(0, 2).Draw(t, "plainNote") == 0 {
 				m.Lines = append(m.Lines, LLine{Text: ":skip looks like a notation", Notation: false})
+			}
+			if kind == "directive-mentioned-in-doc" {
+				m.Lines = append(m.Lines, LLine{Text: "runs what //go:generate would run", Notation: false})
 			}
 		}
 		it.Methods = append(it.Methods, m)
@@ -706,6 +719,10 @@ func GenLayoutFile(t *rapid.T, pf LayoutProfile) *LFile {
 					body.WriteString("\t" + bm.Name + bm.Sig + "\n")
 				}
 				base := LItem{Kind: "decl", Text: fmt.Sprintf("type %s interface {\n%s}", it.Embed, body.String()), Names: []string{it.Embed}}
+				if rapid.IntRange(0, 3).Draw(t, "embedConverter") == 0 {
+					it.EmbedIsConverter = true
+					base = LItem{Kind: "iface", Iface: &LIface{Name: it.Embed, Converter: true, Doc: []LLine{{Text: ":convergen", Notation: true}}, Methods: it.EmbedMethods}}
+				}
 				if rapid.Bool().Draw(t, "embedBaseFirst") {
 					f.Items = append(f.Items, base, LItem{Kind: "iface", Iface: it})
 				} else {
@@ -765,6 +782,16 @@ func GenLayoutFile(t *rapid.T, pf LayoutProfile) *LFile {
 		}
 	}
 	return f
+}
+
+// EmbedsConverter reports whether some converter interface embeds another converter interface.
+func (f *LFile) EmbedsConverter() bool {
+	for _, it := range f.Converters() {
+		if it.EmbedIsConverter {
+			return true
+		}
+	}
+	return false
 }
 
 // WantFuncKeys returns the expected generated functions and the block index of each.
